@@ -97,7 +97,11 @@ func c10R14(p *core.Program, r *core.Report, f *core.Func, armOf map[string]*ast
 			return false
 		}
 		rc := recvOf(c)
-		return rc != nil && (core.VarOf(info, rc) == nil || core.VarOf(info, rc) != recv)
+		if rc == nil {
+			return false
+		}
+		// the receiver of an inlined helper method stands for the printer itself (view: `d := d`)
+		return core.VarOf(info, rc) == nil || core.CanonVarOf(info, f.Body, rc) != core.CanonVar(info, f.Body, recv)
 	}
 	tv := map[*types.Var]string{} // tainted variables and fields
 	var taint func(e ast.Expr) string
